@@ -7,7 +7,7 @@ from .C07 import collect_sinks, reader_roots, param_types
 def run(ctx):
     F = ctx.facts("default")
     ctx.rule("C17.alloc", "the size argument of every with_capacity / vec![_; n] / reserve on the reader call graph is bounded by a "
-                          "constant under the path's guards, or is not derived from the input (one instance per allocation site)", floor=8)
+                          "constant under the path's guards, or is not derived from the input (one instance per allocation site and role of the count; six functions allocate on the reader graph)", floor=6)
     ctx.rule("C17.grow", "every push inside a loop on the reader graph is paid for by input: the loop performs a fallible read in each "
                          "iteration, or it iterates an in-memory collection (whose length was paid for earlier)", floor=4)
     ctx.assumptions.append("this decides 'no allocation sized by a declared count', a necessary condition of the 64x bound; the "
